@@ -137,6 +137,7 @@ type g struct {
 	usedM  map[string]bool
 	annMsgs []string // names of annotated message types usable as nested or top-level bodies
 	usedHdrM map[string]bool
+	svcHdr   map[string]*spec.Header
 }
 
 type route struct {
@@ -687,10 +688,21 @@ func (x *g) method(s *spec.Service, name string, idx int, usedRoutes map[string]
 	}
 	// method headers
 	if x.has(FHeadersMeth) && x.r.chance(2, 3) {
+		// the same header may be declared by several methods of a service (with the same
+		// declaration, as an API author would); it must not clash with a service-level name
 		hn := pick(x.r, headerNames)
-		if !x.usedHdrM[strings.ToLower(hn)] || x.has(RDupMethodHeader) {
+		if x.svcHdr == nil {
+			x.svcHdr = map[string]*spec.Header{}
+		}
+		key := s.Name + "|" + strings.ToLower(hn)
+		if prev := x.svcHdr[key]; prev != nil {
+			cp := *prev
+			m.Headers = append(m.Headers, &cp)
+		} else if !x.usedHdrM[strings.ToLower(hn)] {
+			h := x.header(hn)
+			x.svcHdr[key] = h
 			x.usedHdrM[strings.ToLower(hn)] = true
-			m.Headers = append(m.Headers, x.header(hn))
+			m.Headers = append(m.Headers, h)
 		}
 	}
 	if x.has(RDupMethodHeader) {
